@@ -274,4 +274,61 @@ def sasl2Authenticate (cfg : Cfg) (fastOn : Bool) (mechanisms : List String) (fa
        | some fm, true => fm.contains (toName m)
        | _, _ => false)
 
+/-! ## One level up: `QXmppOutgoingClient::handleStreamFeatures` (after STARTTLS has been dealt with) -/
+
+/-- the user's switches: `useSasl2Authentication`, `useSASLAuthentication`, `useNonSASLAuthentication` (all on by default),
+and whether FAST is enabled (`fastEnabled`) -/
+structure ClientCfg where
+  cfg : Cfg := {}
+  useSasl2 : Bool := true
+  useSasl : Bool := true
+  useNonSasl : Bool := true
+  fastOn : Bool := false
+  deriving Repr
+
+/-- what the stream features advertise, as far as authentication goes -/
+structure Features where
+  /-- `<mechanisms xmlns='urn:ietf:params:xml:ns:xmpp-sasl'/>` (`authMechanisms()`), `[]` when absent -/
+  mechanisms : List String := []
+  /-- `<auth xmlns='http://jabber.org/features/iq-auth'/>` (XEP-0078) -/
+  legacyAuth : Bool := false
+  /-- `<bind xmlns='urn:ietf:params:xml:ns:xmpp-bind'/>` -/
+  bind : Bool := false
+  /-- SASL 2 `<authentication/>`: its mechanisms -/
+  sasl2 : Option (List String) := none
+  /-- `<fast/>` inside it -/
+  fast : Option (List String) := none
+  deriving Repr
+
+inductive ClientOutcome
+  /-- SASL 2 negotiated: `Sasl2Manager::authenticate`'s outcome; a mismatch is reported to the user and the client disconnects -/
+  | sasl2 (o : Outcome)
+  /-- SASL negotiated: `SaslManager::authenticate`'s outcome; a mismatch is reported to the user and the client disconnects -/
+  | sasl (o : Outcome)
+  /-- XEP-0078 `jabber:iq:auth` query sent -/
+  | legacyAuth
+  /-- resource bind request sent (without authentication) -/
+  | bind
+  /-- nothing to negotiate: session opened -/
+  | session
+  deriving DecidableEq, Repr
+
+/-- the authentication part of `handleStreamFeatures` for a fresh connection (no resumable stream, no stream management
+advertised): SASL 2 if offered and enabled, else SASL if a non-empty mechanism list is offered and SASL is enabled, else XEP-0078 if
+advertised and enabled, else bind if advertised, else the session is opened -/
+def clientChoice (c : ClientCfg) (f : Features) : ClientOutcome :=
+  match f.sasl2, c.useSasl2 with
+  | some m2, true => .sasl2 (sasl2Authenticate c.cfg c.fastOn m2 f.fast)
+  | _, _ =>
+    if !f.mechanisms.isEmpty && c.useSasl then .sasl (authenticate c.cfg f.mechanisms)
+    else if f.legacyAuth && c.useNonSasl then .legacyAuth
+    else if f.bind then .bind
+    else .session
+
+/-- does the client disconnect as part of this step? -/
+def ClientOutcome.disconnects : ClientOutcome → Bool
+  | .sasl2 (.mismatch _) => true
+  | .sasl (.mismatch _) => true
+  | _ => false
+
 end Qx.C05
